@@ -46,6 +46,7 @@ MUT_KINDS = [
     "m6_bit_enc", "m6_byte_enc", "m6_drop_enc", "m6_wrong_key", "m6_wrong_nonce", "m6_wrong_ltsk", "m6_sign_other_id", "m6_sign_other_pk", "m6_wrong_x",
     "m6_inner_bit_sig", "m6_inner_bit_id", "m6_inner_bit_pk", "m6_inner_drop_sig", "m6_inner_drop_id", "m6_inner_drop_pk",
     "trunc_m2", "trunc_m4", "trunc_m6", "reorder_m2", "reorder_m6",
+    "m6_rival_after_unsigned", "m6_rival_before_unsigned", "m6_rival_after_signed", "m6_rival_before_signed",
 ]
 
 
@@ -112,6 +113,9 @@ def build_mut(kind: str | None, r: random.Random, ch: Chooser) -> tuple[dict | N
         return {"kind": "m6_sign_other_pk", "pk": RC.ed_pub(ch.nbytes("otherpk", 32))}, None
     if kind == "m6_wrong_x":
         return {"kind": "m6_wrong_x"}, None
+    if kind.startswith("m6_rival_"):
+        _, _, where, signed = kind.split("_")
+        return {"kind": "m6_rival", "where": where, "signed": signed == "signed", "id": "11:22:33:44:55:66", "ltsk": ch.nbytes("rival_ltsk", 32)}, None
     if kind.startswith("m6_inner_"):
         _, _, op, field = kind.split("_")
         o = {"field": f[field]}
@@ -158,9 +162,17 @@ def verify_delivered(setup: hap.SetupResponder, delivered: list[bytes]) -> tuple
     if not ident or pk is None or sig is None:
         return False, "M6 lacks identifier / key / signature", info
     ax = RC.hkdf(srp.K, b"Pair-Setup-Accessory-Sign-Salt", b"Pair-Setup-Accessory-Sign-Info")
-    if len(pk) != 32 or not RC.ed_verify(pk, sig, ax + ident + pk):
+    # A message may carry an item type more than once (not adjacent); which occurrence a decoder prefers is not the
+    # property's business. What is: the identity RETURNED must be one that some signature in the message covers under
+    # the key returned with it. 'pairs' = every (identifier, key) of the message for which that holds.
+    items6 = tlv8.decode(pt, strict=False)
+    ids = [v for t, v in items6 if t == hap.T_ID and v]
+    pks = [v for t, v in items6 if t == hap.T_PUBKEY and len(v) == 32]
+    sigs = [v for t, v in items6 if t == hap.T_SIG]
+    pairs = [(i, p) for i in ids for p in pks if any(RC.ed_verify(p, s, ax + i + p) for s in sigs)]
+    if not pairs:
         return False, "M6 signature not valid for AccessoryX|id|LTPK under the presented key", info
-    info.update(id=ident, pk=pk)
+    info.update(pairs=pairs, ambiguous=len(ids) > 1 or len(pks) > 1 or len(sigs) > 1)
     return True, "", info
 
 
@@ -352,7 +364,7 @@ def judge(plan, ctx: Ctx, out: dict, prefix: str = "") -> None:
                 ctx.violate(prefix + "record-inconsistent", "ltsk-ltpk", "returned iOSDeviceLTSK and iOSDeviceLTPK do not belong together")
             if setup.paired_controller and (setup.paired_controller[1] != ltpk or setup.paired_controller[0] != res["iOSPairingId"]):
                 ctx.violate(prefix + "record-inconsistent", "m5-identity", "the identity the accessory stored from M5 differs from the returned record")
-            if res["AccessoryPairingID"].encode() != info["id"] or bytes.fromhex(res["AccessoryLTPK"]) != info["pk"]:
+            if (res["AccessoryPairingID"].encode(), bytes.fromhex(res["AccessoryLTPK"])) not in info["pairs"]:
                 ctx.violate(prefix + "record-inconsistent", "accessory-identity", "returned accessory id/LTPK are not the authenticated ones")
         except (KeyError, ValueError) as e:
             ctx.violate(prefix + "record-inconsistent", "malformed", f"returned record malformed: {e!r}")
@@ -394,7 +406,8 @@ def execute(plan: dict, ch: Chooser) -> dict:
     try:
         out = run_exchange(plan, ch, ctx)
         judge(plan, ctx, out)
-        if out["result"] is not None and not ctx.violations:
+        if out["result"] is not None and not ctx.violations and out["result"].get("AccessoryPairingID") == out["ident"].pairing_id:
+            # (with two authenticated identities in one M6 the stored one may legitimately be the rival)
             cross_check_verify(plan, ctx, ch, out)
     finally:
         seams.end()
